@@ -53,7 +53,7 @@ func addReinitParticipant(w *World, old int) (int, error) {
 // variants of genuine messages of a signing batch (these parts belong to the
 // C09 and C10 checks: verification must be back on after a reinit).
 func runC20(w *World, tier string, advMode string) (bool, interface{}) {
-	prop := map[string]string{"": "C20", "c09": "C09", "c10": "C10", "c04": "C04", "c14": "C14", "c02": "C02", "c15": "C15", "c01": "C01"}[advMode]
+	prop := map[string]string{"": "C20", "c09": "C09", "c10": "C10", "c04": "C04", "c14": "C14", "c14rt": "C14", "c02": "C02", "c15": "C15", "c01": "C01"}[advMode]
 	n, t := pickNT(w, tier)
 	if n > 4 && tier != "thorough" {
 		n = 4
@@ -225,6 +225,22 @@ func runC20(w *World, tier string, advMode string) (bool, interface{}) {
 	if !rep.OK() {
 		w.Fail("C20", "reinit-request-rejected", rep.ErrMsg)
 		return true, nil
+	}
+	if advMode == "c14rt" {
+		// request kind "finishing a reinitialisation" as a round trip inside the tick that
+		// handles the reinit message: the operator sees the reinit operation in the pool
+		// while the poller has not finished that message yet
+		vi := w.Tape.Choose(n, "victim")
+		v := w.Nodes[newIdx[vi]]
+		if w.Tape.Bool(1, 3, "secondRoundWaiting") {
+			w.Advance(2e9)
+			other := newIdx[(vi+1)%n]
+			payloadB := w.StartDKGPayload(2+w.Tape.Choose(n-1, "tB"), newIdx)
+			if rp := w.CallAPI(w.Nodes[other], "startDKG", "POST", "/startDKG", payloadB); rp.OK() {
+				w.Stats.Fault("multi-round")
+			}
+		}
+		return roundTripAndJudge(w, v, w.Airs[newIdx[vi]], tier, n, t, fmt.Sprintf("log-0.1.4=%v", variant014))
 	}
 	// ---- drive the reinitialisation ------------------------------------------------
 	hashes := map[string]bool{}
@@ -549,6 +565,7 @@ func init() {
 	Register(&Scenario{Prop: "C09", Name: "C09-reinit", Run: func(w *World, tier string) (bool, interface{}) { return runC20(w, tier, "c09") }})
 	Register(&Scenario{Prop: "C10", Name: "C10-reinit", Run: func(w *World, tier string) (bool, interface{}) { return runC20(w, tier, "c10") }})
 	Register(&Scenario{Prop: "C14", Name: "C14-reinit", Run: func(w *World, tier string) (bool, interface{}) { return runC20(w, tier, "c14") }})
+	Register(&Scenario{Prop: "C14", Name: "C14-roundtrip-reinit", Run: func(w *World, tier string) (bool, interface{}) { return runC20(w, tier, "c14rt") }})
 	Register(&Scenario{Prop: "C01", Name: "C01-reinit", Run: func(w *World, tier string) (bool, interface{}) { return runC20(w, tier, "c01") }})
 	Register(&Scenario{Prop: "C15", Name: "C15-reinit", Run: func(w *World, tier string) (bool, interface{}) { return runC20(w, tier, "c15") }})
 	Register(&Scenario{Prop: "C02", Name: "C02-reinit", Run: func(w *World, tier string) (bool, interface{}) { return runC20(w, tier, "c02") }})
